@@ -89,7 +89,7 @@ class MpReachNLRI(Attribute):
             if safi == safn.SAFNUM_UNICAST:
                 # ipv4 unicast
                 # parse nexthop
-                nexthop = str(netaddr.IPAddress(int(binascii.b2a_hex(nexthop_bin), 16)))
+                nexthop = str(netaddr.IPAddress(int(binascii.b2a_hex(nexthop_bin), 16), 6 if len(nexthop_bin) > 4 else 4))
                 # parse nlri
                 nlri = IPv4Unicast.parse(nlri_bin, addpath=add_path)
                 return dict(afi_safi=(afi, safi), nexthop=nexthop, nlri=nlri)
@@ -99,14 +99,14 @@ class MpReachNLRI(Attribute):
                 # parse nexthop
                 rd_bin = nexthop_bin[0:8]
                 nexthop_rd = IPv4MPLSVPN.parse_rd(rd_bin)
-                ipv4 = str(netaddr.IPAddress(int(binascii.b2a_hex(nexthop_bin[8:]), 16)))
+                ipv4 = str(netaddr.IPAddress(int(binascii.b2a_hex(nexthop_bin[8:]), 16), 6 if len(nexthop_bin) > 12 else 4))
                 nexthop = {'rd': nexthop_rd, 'str': ipv4}
                 # parse nlri
                 nlri = IPv4MPLSVPN.parse(nlri_bin, addpath=add_path)
                 return dict(afi_safi=(afi, safi), nexthop=nexthop, nlri=nlri)
             elif safi == safn.SAFNUM_MPLS_LABEL:
                 if nexthop_bin:
-                    nexthop = str(netaddr.IPAddress(int(binascii.b2a_hex(nexthop_bin), 16)))
+                    nexthop = str(netaddr.IPAddress(int(binascii.b2a_hex(nexthop_bin), 16), 6 if len(nexthop_bin) > 4 else 4))
                 else:
                     nexthop = ''
                 nlri = IPv4LabeledUnicast.parse(nlri_bin, addpath=add_path)
@@ -127,7 +127,7 @@ class MpReachNLRI(Attribute):
                     if nlri:
                         nlri_list.append(nlri)
                 if nexthop_bin:
-                    nexthop = str(netaddr.IPAddress(int(binascii.b2a_hex(nexthop_bin), 16)))
+                    nexthop = str(netaddr.IPAddress(int(binascii.b2a_hex(nexthop_bin), 16), 6 if len(nexthop_bin) > 4 else 4))
                 else:
                     nexthop = ''
                 return dict(afi_safi=(afi, safi), nexthop=nexthop, nlri=nlri_list)
@@ -151,11 +151,11 @@ class MpReachNLRI(Attribute):
                 # of Next Hop field and the peer the route is being advertised to.
                 nexthop_addrlen = 16
                 has_link_local = False
-                nexthop = str(netaddr.IPAddress(int(binascii.b2a_hex(nexthop_bin[:nexthop_addrlen]), 16)))
+                nexthop = str(netaddr.IPAddress(int(binascii.b2a_hex(nexthop_bin[:nexthop_addrlen]), 16), 6))
                 if len(nexthop_bin) == 2 * nexthop_addrlen:
                     # has link local address
                     has_link_local = True
-                    linklocal_nexthop = str(netaddr.IPAddress(int(binascii.b2a_hex(nexthop_bin[nexthop_addrlen:]), 16)))
+                    linklocal_nexthop = str(netaddr.IPAddress(int(binascii.b2a_hex(nexthop_bin[nexthop_addrlen:]), 16), 6))
                 nlri = IPv6Unicast.parse(nlri_bin, addpath=add_path)
                 if has_link_local:
                     return dict(afi_safi=(afi, safi), nexthop=nexthop, linklocal_nexthop=linklocal_nexthop, nlri=nlri)
@@ -166,14 +166,14 @@ class MpReachNLRI(Attribute):
                 # parse nexthop
                 rd_bin = nexthop_bin[0:8]
                 nexthop_rd = IPv6MPLSVPN.parse_rd(rd_bin)
-                ipv6 = str(netaddr.IPAddress(int(binascii.b2a_hex(nexthop_bin[8:]), 16)))
+                ipv6 = str(netaddr.IPAddress(int(binascii.b2a_hex(nexthop_bin[8:]), 16), 6))
                 nexthop = {'rd': nexthop_rd, 'str': ipv6}
                 # parse nlri
                 nlri = IPv6MPLSVPN.parse(nlri_bin, addpath=add_path)
                 return dict(afi_safi=(afi, safi), nexthop=nexthop, nlri=nlri)
             elif safi == safn.SAFNUM_MPLS_LABEL:
                 if nexthop_bin:
-                    nexthop = str(netaddr.IPAddress(int(binascii.b2a_hex(nexthop_bin), 16)))
+                    nexthop = str(netaddr.IPAddress(int(binascii.b2a_hex(nexthop_bin), 16), 6 if len(nexthop_bin) > 4 else 4))
                 else:
                     nexthop = ''
                 nlri = IPv6LabeledUnicast.parse(nlri_bin, addpath=add_path)
@@ -184,7 +184,7 @@ class MpReachNLRI(Attribute):
         # for l2vpn
         elif afi == afn.AFNUM_L2VPN:
             if safi == safn.SAFNUM_EVPN:
-                nexthop = str(netaddr.IPAddress(int(binascii.b2a_hex(nexthop_bin), 16)))
+                nexthop = str(netaddr.IPAddress(int(binascii.b2a_hex(nexthop_bin), 16), 6 if len(nexthop_bin) > 4 else 4))
                 nlri = EVPN.parse(nlri_bin)
                 return dict(afi_safi=(afi, safi), nexthop=nexthop, nlri=nlri)
             else:
@@ -193,7 +193,7 @@ class MpReachNLRI(Attribute):
         # BGP LS
         elif afi == afn.AFNUM_BGPLS:
             if safi == safn.SAFNUM_BGPLS:
-                nexthop = str(netaddr.IPAddress(int(binascii.b2a_hex(nexthop_bin), 16)))
+                nexthop = str(netaddr.IPAddress(int(binascii.b2a_hex(nexthop_bin), 16), 6 if len(nexthop_bin) > 4 else 4))
                 nlri = BGPLS.parse(nlri_bin)
                 return dict(afi_safi=(afi, safi), nexthop=nexthop, nlri=nlri)
             else:
